@@ -445,3 +445,36 @@ GROUPS.append(Group('F2', '_scrub_ansi_settings(make_unique=True) returns only n
                                                  'AnsiSetting.__init__', 'AnsiFormat.ansi_settings'], f2_items, f2_task,
                     bounds='argument forms: a setting, lists/tuples nested up to depth 3, AnsiFormat members with one and two '
                     'settings, names, mixtures; setting texts symbolic'))
+
+
+# ============================================================================================= V5
+CL_V5 = [Clause('same-text-and-table', 'post_copy_same_value'), Clause('no-container-shared', 'post_copy_separate')]
+CL_V5C = [Clause('copy-equals-source-and-is-separate', 'post_copy_result_same_value')]
+
+
+def v5_items(tier):
+    shp = tier_shapes(tier, (3, 2, 2, 2), (4, 3, 2, 2))
+    return [[sh, k] for sh in shp for k in ('init', 'init-ansistr', 'copy')]
+
+
+def v5_task(envr, item):
+    shape, kind = item
+
+    def body(c):
+        src, info = shapes.build_ansistring(c, shape, 'a')
+        if kind == 'copy':
+            run_contract(envr, c, 'AnsiString.copy', src, [], {}, CL_V5C, frame=('self',), fresh=True)
+            return
+        arg = src
+        if kind == 'init-ansistr':
+            arg = PObj('AnsiStr', {'__payload__': sym.s_opaque(c.opaque_text('Pay')), '_s': src})
+        new = PObj('AnsiString')
+        run_contract(envr, c, 'AnsiString.__init__', new, [arg], {}, CL_V5, frame=('s',))
+    if kind == 'copy':
+        return ContractRun(body, CL_V5C, frame=('self',), fresh=True)
+    return ContractRun(body, CL_V5, frame=('s',))
+
+
+GROUPS.append(Group('V5', 'copy constructor / copy(): structurally equal value in new containers, source untouched',
+                    ['C08', 'C05', 'C13'], 'B', ['AnsiString.__init__', 'AnsiString.copy', '_AnsiSettingPoint.__init__'],
+                    v5_items, v5_task, bounds='change points N<=3/4, objects<=2/3'))
